@@ -98,7 +98,8 @@ next_evmux(echs_evstrm_t strm, bool popp)
 		 * regardless of POPP we prefill without popping */
 		for (size_t j = 0UL; j < this->ns; j++) {
 			echs_evstrm_t s = this->s[j];
-			this->ev[j] = echs_evstrm_next(s);
+			/* a clone may lack streams that had ended */
+			this->ev[j] = s != NULL ? echs_evstrm_next(s) : nul;
 		}
 	}
 	/* best event so-far is the first non-null event */
@@ -114,7 +115,9 @@ next_evmux(echs_evstrm_t strm, bool popp)
 	if (UNLIKELY(i >= this->ns)) {
 		/* yep, bugger off free the streams and the stream array here */
 		for (size_t j = 0U; j < this->ns; j++) {
-			free_echs_evstrm(this->s[j]);
+			if (LIKELY(this->s[j] != NULL)) {
+				free_echs_evstrm(this->s[j]);
+			}
 		}
 		free(this->s);
 		this->s = NULL;
@@ -223,7 +226,8 @@ clone_evmux(echs_const_evstrm_t s)
 		if (UNLIKELY((stmp = this->s[i]) == NULL)) {
 			;
 		} else if (UNLIKELY((stmp = clone_echs_evstrm(stmp)) == NULL)) {
-			;
+			/* a stream that has ended has no clone */
+			res->ev[i] = (echs_event_t){0U};
 		}
 		res->s[i] = stmp;
 	}
